@@ -420,11 +420,28 @@ DevClassesC(T, call, cx) ==
      THEN {"C02-bool-shadows-const-overloads"} ELSE {})
   \cup
   \* the overloads serving a count are sorted by their number of parameters first: a longer
-  \* overload (the rest defaulted) that takes the argument by a Python conversion (int -> float,
-  \* anything -> bool, bool -> int) runs although a shorter overload has the corresponding type
-  (IF \E j1, j2 \in R : \E i \in Pos(T, call, j1) :
-        Len(T[j1].p) > Len(T[j2].p) /\ PyAccept(call.a[i], T[j1].p[i]) /\ ~Corr(call.a[i], T[j1].p[i])
+  \* overload (the rest defaulted) that can take the arguments at all (by a Python conversion such
+  \* as int -> float or anything -> bool, or by a derived-to-base conversion) runs although a
+  \* shorter overload matches them better
+  (IF \E j1, j2 \in R : Len(T[j1].p) > Len(T[j2].p)
+                        /\ \A i \in Pos(T, call, j1) : PyAccept(call.a[i], T[j1].p[i])
      THEN {"C02-longer-overload-first"} ELSE {})
+  \cup
+  \* the sort order is not the C++ ranking: an overload that takes every argument, one of them only
+  \* through a Python conversion (any object -> bool, int -> float, bool -> int), can precede the
+  \* overload whose parameter types correspond (it sorts first on const-ness, on its number of
+  \* parameters or on an earlier parameter)
+  (IF \E j1, j2 \in R : j1 # j2 /\ j2 \in CorrCands(T, call)
+        /\ (\A i \in Pos(T, call, j1) : PyAccept(call.a[i], T[j1].p[i]))
+        /\ (\E i \in Pos(T, call, j1) : ~Corr(call.a[i], T[j1].p[i]))
+     THEN {"C02-convertible-overload-first"} ELSE {})
+  \cup
+  \* range checks run before the instance pointers are checked: the OverflowError of an overload
+  \* that does not match on an instance parameter pre-empts the overload that matches
+  (IF \E j \in R : \E i, i2 \in Pos(T, call, j) :
+        IntAt(j, i) /\ P2(T[j].p[i], call.a[i], mode) = "raise"
+        /\ T[j].p[i2] \in InstCats /\ ~Corr(call.a[i2], T[j].p[i2])
+     THEN {"C02-range-check-before-instance-check"} ELSE {})
   \cup
   \* a remap without parameters inside a range of counts runs whatever arguments were passed
   (IF "extra-args" \notin Fixed /\ N(call) > 0 /\ g.lo < g.hi /\ \E j \in R : Len(T[j].p) = 0
